@@ -17,7 +17,6 @@
 package endpoint
 
 import (
-	"bytes"
 	"context"
 	"crypto/sha256"
 	"errors"
@@ -35,8 +34,8 @@ import (
 	"github.com/dadrus/heimdall/internal/httpcache"
 	"github.com/dadrus/heimdall/internal/x"
 	"github.com/dadrus/heimdall/internal/x/errorchain"
+	"github.com/dadrus/heimdall/internal/x/hashx"
 	"github.com/dadrus/heimdall/internal/x/httpx"
-	"github.com/dadrus/heimdall/internal/x/stringx"
 )
 
 type HTTPCache struct {
@@ -183,19 +182,12 @@ func (e Endpoint) readResponse(resp *http.Response) ([]byte, error) {
 func (e Endpoint) Hash() []byte {
 	hash := sha256.New()
 
-	hash.Write(stringx.ToBytes(e.URL))
-	hash.Write(stringx.ToBytes(e.Method))
-
-	buf := bytes.NewBufferString("")
-	for k, v := range e.Headers {
-		buf.Write(stringx.ToBytes(k))
-		buf.Write(stringx.ToBytes(v))
-	}
-
-	hash.Write(buf.Bytes())
+	hashx.WriteString(hash, e.URL)
+	hashx.WriteString(hash, e.Method)
+	hashx.WriteStringMap(hash, e.Headers)
 
 	if e.AuthStrategy != nil {
-		hash.Write(e.AuthStrategy.Hash())
+		hashx.WriteBytes(hash, e.AuthStrategy.Hash())
 	}
 
 	return hash.Sum(nil)
